@@ -159,6 +159,18 @@ std::array<std::uint8_t, 32> Shamir::combine(const std::vector<ShamirShare>& sha
     static const auto log_table = build_log_table(exp_table);
 
     std::vector<ShamirShare> subset(shares.begin(), shares.begin() + threshold);
+
+    // Interpolation is only defined for pairwise distinct, non-zero abscissae. interpolate()
+    // skips terms whose share byte is zero, so it cannot be relied on to notice a repeated
+    // index through a zero denominator: validate the indices explicitly.
+    std::array<bool, 256> seen{};
+    for (const auto& share : subset) {
+        if (share.index == 0 || seen[share.index]) {
+            throw std::invalid_argument("share indices must be non-zero and distinct");
+        }
+        seen[share.index] = true;
+    }
+
     return interpolate(subset, exp_table, log_table);
 }
 
